@@ -224,13 +224,20 @@ func (e *Engine) RenderTo(w io.Writer, name string, context map[string]interface
 
 // Load loads a template by name
 func (e *Engine) Load(name string) (*Template, error) {
+	// Use a quick check under read lock first to avoid contention
+	e.mu.RLock()
+	tmpl, ok := e.templates[name]
+	e.mu.RUnlock()
+
+	// A template that was registered directly (RegisterString, RegisterTemplate,
+	// compiled templates) has no loader to re-read it from: it is not a cache
+	// entry and is served whether or not caching is enabled
+	if ok && tmpl.loader == nil {
+		return tmpl, nil
+	}
+
 	// Only check the cache if caching is enabled
 	if e.environment.cache {
-		// Use a quick check under read lock first to avoid contention
-		e.mu.RLock()
-		tmpl, ok := e.templates[name]
-		e.mu.RUnlock()
-
 		// If template exists in cache
 		if ok {
 			// If auto-reload is disabled, return the cached template immediately
@@ -370,12 +377,11 @@ func (e *Engine) RegisterString(name string, source string) error {
 		loader:       nil, // String templates don't have a loader
 	}
 
-	// Only cache if caching is enabled
-	if e.environment.cache {
-		e.mu.Lock()
-		e.templates[name] = template
-		e.mu.Unlock()
-	}
+	// A registration is kept whether or not caching is enabled: there is no
+	// loader the template could be read from again
+	e.mu.Lock()
+	e.templates[name] = template
+	e.mu.Unlock()
 
 	return nil
 }
@@ -425,8 +431,9 @@ func (e *Engine) RegisterTemplate(name string, template *Template) {
 		template.lastModified = time.Now().Unix()
 	}
 
-	// Only cache if caching is enabled
-	if e.environment.cache {
+	// A registration is kept whether or not caching is enabled (templates that
+	// came from a loader are re-read by Load when caching is off)
+	if e.environment.cache || template.loader == nil {
 		e.mu.Lock()
 		e.templates[name] = template
 		e.mu.Unlock()
